@@ -261,10 +261,18 @@ def run(pid, tier, seed, replay, mode):
                                    in_batch=dict(likelihood=float(L[j]), exp_loglik=float(E[j])),
                                    alone=dict(likelihood=float(l1[0]), exp_loglik=float(e1[0]))), True)
         # ... nor how the cells are stored: float64 always; integers when the batch is complete and discrete
-        alts = [np.float64] + ([np.int64] if (not points and not np.isnan(X).any()) else [])
+        # ... nor the memory layout: column-major, a strided view of a wider array, a read-only buffer
+        def _strided(a):
+            big = np.full((a.shape[0], 2 * a.shape[1] + 1), 7.0, dtype=a.dtype); big[:, 1::2] = a
+            return big[:, 1::2]
+        def _readonly(a):
+            b = a.copy(); b.setflags(write=False); return b
+        alts = [np.float64] + ([np.int64] if (not points and not np.isnan(X).any()) else []) + ["F-order", "strided-view", "read-only"]
         for dt in alts:
             try:
-                l2, ll2, e2 = impl_eval(root, X.astype(dt))
+                Xalt = (np.asfortranarray(X) if dt == "F-order" else _strided(X) if dt == "strided-view" else _readonly(X) if dt == "read-only"
+                        else X.astype(dt))
+                l2, ll2, e2 = impl_eval(root, Xalt)
                 okd = np.allclose(l2, L, rtol=1e-5, atol=1e-12, equal_nan=True) and np.allclose(e2, E, rtol=1e-5, atol=1e-12, equal_nan=True)
                 err = None
             except Exception as e:
@@ -272,7 +280,7 @@ def run(pid, tier, seed, replay, mode):
             if not okd and dist.get("dtype_viol", 0) < 3:
                 dist["dtype_viol"] = dist.get("dtype_viol", 0) + 1
                 j = 0 if l2 is None else int(np.argmax(np.abs(np.nan_to_num(l2 - L))))
-                rep.violation(dict(kind="value-depends-on-the-dtype-the-rows-are-stored-in", dtype=np.dtype(dt).name, circuit=tab.brief(),
+                rep.violation(dict(kind="value-depends-on-the-dtype-the-rows-are-stored-in", dtype=dt if isinstance(dt, str) else np.dtype(dt).name, circuit=tab.brief(),
                                    row=[None if np.isnan(t) else float(t) for t in X[j]], error=err,
                                    as_float32=float(L[j]), as_this_dtype=None if l2 is None else float(l2[j])), True)
         cases.append(dict(root=root, tab=tab, dom=dom, width=width, rows=rows, L=L, LL=LL, E=E, exh=exh, points=points))
